@@ -278,6 +278,10 @@ func (n *Nodis) SMove(source, destination, member string) bool {
 		if !meta.isOk() {
 			return nil
 		}
+		if dst := tx.writeKey(destination, nil); dst.isOk() {
+			// a destination of another type fails the command before the member leaves the source
+			_ = dst.value.(*set.Set)
+		}
 		m := meta.value.(*set.Set).SRem(member)
 		if m == 0 {
 			return nil
